@@ -239,7 +239,7 @@ func propC16(c *Ctx) {
 			o.Fail(c.W.Pos(exp.Pos()), "no returning path", nil)
 		}
 		oc := c.Ob("C16.R2", "ophost ExportGenesis: every enumerated element reaches its list (no early stop, no skipped element)")
-		for _, p := range c.Paths(exp, PO{Params: []string{"k", "ctx"}, Callbacks: true, Depth: 9, WalkRounds: 2}) {
+		for _, p := range pathsWithFallback(c, exp, PO{Params: []string{"k", "ctx"}, Callbacks: true, Depth: 9, WalkRounds: 2}, PO{Params: []string{"k", "ctx"}, Callbacks: true, Depth: 9}) {
 			oc.Paths++
 			if p.Panic || len(p.RetVal) != 1 {
 				continue
@@ -1046,4 +1046,20 @@ var pinnedRelationalRejections = map[string]map[string]bool{
 		"data.Bridges[#].BatchInfos[(builtin.len(data.Bridges[#].BatchInfos) - 1)].BatchInfo {<,>} data.Bridges[#].BridgeConfig.BatchInfo": true,
 	},
 	"opchild": {},
+}
+
+// pathsWithFallback enumerates fn under po; when the bounded enumeration overflows (the two
+// symbolic walk rounds multiply with cursor loops nested in the walked callback) it falls back
+// to alt, a cheaper query for the same obligation.
+func pathsWithFallback(c *Ctx, fn *ssa.Function, po, alt PO) (ps []*Path) {
+	defer func() {
+		if r := recover(); r != nil {
+			if u, ok := r.(ErrUndecided); ok && strings.Contains(u.Why, "paths") {
+				ps = c.Paths(fn, alt)
+				return
+			}
+			panic(r)
+		}
+	}()
+	return c.Paths(fn, po)
 }
